@@ -445,6 +445,7 @@ pub fn engine_conc(a: &Args) {
     let programs = a.num("programs", 20);
     let execs = a.num("execs", 4);
     let first = a.num("first-program", 0);
+    let as_prop = a.num("prop", 4);
     YIELD_PERMILLE.store(a.num("yield-permille", 300) as usize, Relaxed);
     SPIN.store(a.num("spin", 0) as usize, Relaxed);
     lean_string::verif_hooks::set_point(Some(point_cb));
@@ -482,7 +483,7 @@ pub fn engine_conc(a: &Args) {
                         &J::new()
                             .s("t", "viol")
                             .s("engine", "conc")
-                            .n("prop", 4)
+                            .n("prop", as_prop)
                             .s("monitor", "per-thread-model")
                             .s("msg", &format!("program {p} exec {e}: {msg}"))
                             .n("seed", seed)
